@@ -91,7 +91,7 @@ pub async fn scenario() {
 	rt::event("plan", format!("subs={n_subs} buf={buf} id_str={id_str} max_conc={max_conc} handler={with_handler} pushes={n_push} paces={paces:?} ends={ends:?} server_close={server_close:?}"));
 
 	let (wire, tx, rx) = Wire::new();
-	let (ping, req_timeout) = super::draw_ping();
+	let (ping, req_timeout) = super::draw_ping(10);
 	let mut builder = Client::builder();
 	if let Some(p) = ping {
 		builder = builder.enable_ws_ping(p);
